@@ -272,6 +272,14 @@ class Cover:
             return st
         if k == "ReturnStmt":
             if ks:
+                r0 = strip(ks[0], casts=True)
+                if r0.get("kind") == "ConditionalOperator":
+                    # `return c ? a : b;` is two returns; the condition is over lengths nothing is known about, so both happen
+                    st = self.expr(kids(r0)[0], st)
+                    for arm in kids(r0)[1:]:
+                        sa = self.expr(arm, self._copy(st), is_return=True)
+                        self.returns.append((n, sa["ret"], sa["cov"]))
+                    return None
                 st = self.expr(ks[0], st, is_return=True)
                 self.returns.append((n, st["ret"], st["cov"]))
             return None
